@@ -150,14 +150,25 @@ func DSha256(b []byte) [32]byte {
 // encoder
 
 type encoder struct {
-	b     []byte
-	spans []Span
-	c     Ctx
+	b       []byte
+	spans   []Span
+	noSpans bool
+	c       Ctx
 }
 
 func (e *encoder) put(b []byte, path string, class SpanClass, val uint64) {
-	e.spans = append(e.spans, Span{Off: len(e.b), Len: len(b), Path: path, Class: class, Val: val})
+	if !e.noSpans {
+		e.spans = append(e.spans, Span{Off: len(e.b), Len: len(b), Path: path, Class: class, Val: val})
+	}
 	e.b = append(e.b, b...)
+}
+
+// pth builds a span path only when spans are recorded.
+func (e *encoder) pth(format string, a ...interface{}) string {
+	if e.noSpans {
+		return ""
+	}
+	return fmt.Sprintf(format, a...)
 }
 
 // U fetches an integer field.
@@ -270,7 +281,7 @@ func (e *encoder) fields(fs []F, r Rec, path string) {
 			l := r.L(f.Name)
 			e.put(CompactSize(uint64(len(l))), p+".count", ClassCount, uint64(len(l)))
 			for j, el := range l {
-				e.fields(f.Sub, el, fmt.Sprintf("%s[%d].", p, j))
+				e.fields(f.Sub, el, e.pth("%s[%d].", p, j))
 			}
 		case KFixedList:
 			l := r.BL(f.Name)
@@ -279,7 +290,7 @@ func (e *encoder) fields(fs []F, r Rec, path string) {
 				if len(el) != f.N {
 					panic(fmt.Sprintf("refwire: element of %s has %d bytes, want %d", f.Name, len(el), f.N))
 				}
-				e.put(el, fmt.Sprintf("%s[%d]", p, j), ClassData, 0)
+				e.put(el, e.pth("%s[%d]", p, j), ClassData, 0)
 			}
 		case KTx:
 			e.tx(r.R(f.Name), p+".")
@@ -287,7 +298,7 @@ func (e *encoder) fields(fs []F, r Rec, path string) {
 			l := r.L(f.Name)
 			e.put(CompactSize(uint64(len(l))), p+".count", ClassCount, uint64(len(l)))
 			for j, el := range l {
-				e.tx(el, fmt.Sprintf("%s[%d].", p, j))
+				e.tx(el, e.pth("%s[%d].", p, j))
 			}
 		case KZero:
 			e.put([]byte{0}, p, ClassCount, 0)
@@ -297,12 +308,19 @@ func (e *encoder) fields(fs []F, r Rec, path string) {
 	}
 }
 
-// Encode lays the record out per the table.  A malformed record is a harness
-// bug and panics.
+// Encode lays the record out per the table and reports the span of every
+// field.  A malformed record is a harness bug and panics.
 func Encode(fs []F, r Rec, c Ctx) ([]byte, []Span) {
 	e := &encoder{c: c}
 	e.fields(fs, r, "")
 	return e.b, e.spans
+}
+
+// EncodeBytes is Encode without the span bookkeeping.
+func EncodeBytes(fs []F, r Rec, c Ctx) []byte {
+	e := &encoder{c: c, noSpans: true}
+	e.fields(fs, r, "")
+	return e.b
 }
 
 // ---------------------------------------------------------------------------
